@@ -14,6 +14,8 @@ CONSTANTS
   NDis = 0
   NVec = 0
   NCbSend = 0
+  HostKinds = {"Empty", "PollRecv", "SemSet", "SemGet", "SemClr", "SemMask"}
+  NDspMask = 0
   TrackLockset = FALSE
 SPECIFICATION TraceSpec
 INVARIANT ObservedOK
